@@ -278,15 +278,20 @@ func (f *Chip) interpolate(
 
 	lookupFromPoints := frontend.Variable(1)
 	for i := 0; i < len(xPoints); i++ {
+		// x may coincide with an interpolation point. The quotient is then unused (the value is looked up
+		// below), but the division gadget rejects a zero divisor, so divide by one in that case.
+		diff := f.gl.SubExtension(
+			x,
+			xPoints[i],
+		)
+		diffIsZero := f.gl.IsZero(diff)
+		diff[0] = gl.NewVariable(f.api.Add(diff[0].Limb, diffIsZero))
 		quotient, hasQuotient := f.gl.DivExtension(
 			barycentricWeights[i],
-			f.gl.SubExtension(
-				x,
-				xPoints[i],
-			),
+			diff,
 		)
 
-		lookupFromPoints = f.api.Mul(hasQuotient, lookupFromPoints)
+		lookupFromPoints = f.api.Mul(f.api.Sub(hasQuotient, diffIsZero), lookupFromPoints)
 
 		sum = f.gl.AddExtension(
 			f.gl.MulExtension(
